@@ -32,6 +32,7 @@ CATALOGUE = [
     ('expr', 'f()', 'call0'), ('expr', 'f(a)', 'call1'), ('expr', 'f(a, b, k=v)', 'call-kw'),
     ('expr', 'f(a.b, *c, k=v, **d)', 'call-star'), ('expr', 'a.b(c=1, d=[e, f])', 'call-attr-nested'),
     ('expr', 'f(g(a), k=h(b))', 'call-nested'),
+    ('expr', 'f(k=a, j=b)', 'call-kw2'), ('expr', 'a.b.c.d', 'dotted4'),
     ('expr', 'a[b]', 'subscript'), ('expr', '*a', 'starred'), ('expr', '*a.b', 'starred-dotted'),
     ('expr', '(a, b)', 'tuple2-par'), ('expr', 'a, b', 'tuple2'), ('expr', 'a,', 'tuple1'), ('expr', '()', 'tuple0'),
     ('expr', 'a, b, c', 'tuple3'), ('expr', 'a.b, c.d', 'tuple-dotted'), ('expr', '(a, b), c', 'tuple-nested'),
@@ -82,12 +83,13 @@ CATALOGUE = [
     ('arguments', 'a: int = 1, *, b: str', 'args-annot'), ('arguments', '*, a, b=1', 'args-kwonly'),
     ('arguments', 'a=1, b=2', 'args-defaults2'), ('arguments', 'a, b=c.d, *e', 'args-default-dotted'),
     ('arguments', 'a, *, k=v', 'args-kwonly-default'), ('arguments', 'a, b, /', 'args-posonly'),
+    ('arguments', '*a, b=1', 'args-vararg-kwdefault'), ('arguments', 'a, *b, c', 'args-vararg-kwonly'),
     ('arguments_lambda', 'a, b=1', 'largs-default'), ('arguments_lambda', '*a, **k', 'largs-star'),
     ('arg', 'a', 'arg'), ('arg', 'a: int', 'arg-annot'), ('arg', 'a: b.c', 'arg-annot-dotted'),
     ('keyword', 'a=1', 'kw-const'), ('keyword', 'a=b', 'kw-name'), ('keyword', '**k', 'kw-dstar'),
     ('keyword', 'a=b.c', 'kw-dotted'), ('keyword', 'a=[b, c]', 'kw-list'),
     ('alias', 'a', 'alias'), ('alias', 'a.b', 'alias-dotted'), ('alias', 'a as b', 'alias-as'),
-    ('alias', 'a.b.c as d', 'alias-dotted-as'), ('alias', '*', 'alias-star'),
+    ('alias', 'a.b.c as d', 'alias-dotted-as'), ('alias', 'a.b.c.d', 'alias-dotted4'), ('alias', '*', 'alias-star'),
     ('_aliases', '', 'aliases0'), ('_aliases', 'a', 'aliases1'), ('_aliases', 'a, b', 'aliases2'),
     ('_aliases', 'a.b, c', 'aliases-dotted'), ('_aliases', 'a as b, c.d as e', 'aliases-as'), ('_aliases', '*', 'aliases-star'),
     ('_aliases', 'a, b, c', 'aliases3'),
@@ -104,7 +106,7 @@ CATALOGUE = [
     ('pattern', '[a, *_]', 'pat-seq-starwild'), ('pattern', '[]', 'pat-seq0'), ('pattern', '(a, b)', 'pat-seq-par'),
     ('pattern', 'a, b', 'pat-seq-bare'), ('pattern', '[a, [b, c]]', 'pat-seq-nested'),
     ('pattern', '{1: a}', 'pat-map1'), ('pattern', '{1: a, **r}', 'pat-map-rest'), ('pattern', '{}', 'pat-map0'),
-    ('pattern', '{"k": a, x.y: [b]}', 'pat-map2'),
+    ('pattern', '{"k": a, x.y: [b]}', 'pat-map2'), ('pattern', '{1: a, "k": b, **r}', 'pat-map2-rest'),
     ('pattern', 'c()', 'pat-class0'), ('pattern', 'c(a, b)', 'pat-class2'), ('pattern', 'c(a, k=b)', 'pat-class-kw'),
     ('pattern', 'c.d(a, k=[b, *e])', 'pat-class-nested'), ('pattern', 'c(k=a, j=b)', 'pat-class-kw2'),
     ('pattern', 'a | b', 'pat-or'), ('pattern', '1 | 2 | x.y', 'pat-or3'), ('pattern', 'a as b', 'pat-as'),
@@ -143,7 +145,96 @@ HOSTED = [
     ('x = 1\ny', ['body', 1], 'child-expr-stmt'),
 ]
 
-LAYOUTS = ('base', 'spaces', 'newline', 'comment', 'backslash', 'parens')
+
+# ----------------------------------------------------------------------------------------------------------------------
+# seeded random operands: containers of every convertible family filled with 0..4 elements drawn from pools
+
+_ATOMS = ['a', 'b', 'x.y', 'p.q.r', '1', "'s'", 'None', '_', 'f()', 'g(a, k=b)', '[c, d]', '(e, f)', '-1', 'a + b',
+          '{1: v}', 'h.i(j)', '*s', '*t.u']
+_PATS = ['a', '_', '1', "'s'", 'None', 'x.y', '[c, d]', '(e, f)', 'k()', 'k(a, b=c)', '{1: v}', '{1: v, **r}', '*s', '*_',
+         'a | b', 'a as b', '-1']
+
+
+def random_operands(rng, n):
+    """n (mode, source, shape) triples; sources that pfst does not build are dropped by the caller"""
+    out = []
+    for _ in range(n):
+        fam = rng.choice(['Tuple', 'List', 'Set', 'Dict', 'Call', '_arglikes', 'arguments', '_aliases', '_withitems',
+                          'pattern-seq', 'pattern-class', 'pattern-map', '_pattern_attrlikes', '_type_params',
+                          '_decorator_list', '_Assign_targets', '_comprehension_ifs', 'keyword', 'withitem'])
+        k = rng.choice([0, 1, 1, 2, 2, 3, 4])
+        at = [rng.choice(_ATOMS) for _ in range(k)]
+        nm = [rng.choice('abcdefg') + str(i) for i in range(k)]
+        if fam == 'Tuple':
+            src, mode = (', '.join(at) + (',' if k == 1 else '')) if k else '()', 'expr'
+        elif fam == 'List':
+            src, mode = '[' + ', '.join(at) + ']', 'expr'
+        elif fam == 'Set':
+            src, mode = ('{' + ', '.join(at) + '}') if k else '{*()}', 'expr'
+        elif fam == 'Dict':
+            src, mode = '{' + ', '.join(('**' + a.lstrip('*')) if a.startswith('*') else f'{n_}: {a}'
+                                        for n_, a in zip(nm, at)) + '}', 'expr'
+        elif fam in ('Call', '_arglikes'):
+            pos = [a for a in at if rng.random() < 0.6]
+            kws = [f'{n_}={a.lstrip("*")}' for n_, a in zip(nm, at) if a not in pos]
+            if rng.random() < 0.2:
+                kws.append('**kw')
+            body = ', '.join(pos + kws)
+            src, mode = (f'fn({body})', 'expr') if fam == 'Call' else (body, '_arglikes')
+        elif fam == 'arguments':
+            parts = []
+            dflt = False
+            for n_, a in zip(nm, at):
+                if rng.random() < 0.4 or dflt:
+                    parts.append(f'{n_}={a.lstrip("*")}')
+                    dflt = True
+                else:
+                    parts.append(n_ + (': int' if rng.random() < 0.2 else ''))
+            if rng.random() < 0.3:
+                parts.append('*va')
+                if rng.random() < 0.5:
+                    parts.append('ko' + ('=1' if rng.random() < 0.5 else ''))
+            if rng.random() < 0.2:
+                parts.append('**kw')
+            src, mode = ', '.join(parts), 'arguments'
+        elif fam == '_aliases':
+            src, mode = ', '.join(rng.choice(['{0}', '{0}.m', '{0} as z{0}', '{0}.m.n as z{0}']).format(n_) for n_ in nm), \
+                '_aliases'
+        elif fam in ('_withitems', 'withitem'):
+            its = [a.lstrip('*') + rng.choice(['', '', f' as {n_}', f' as ({n_}, w)']) for n_, a in zip(nm, at)]
+            src, mode = (', '.join(its), '_withitems') if fam == '_withitems' else ((its or ['a'])[0], 'withitem')
+        elif fam == 'pattern-seq':
+            ps = [rng.choice(_PATS) for _ in range(k)]
+            stars = [i for i, p in enumerate(ps) if p.startswith('*')]
+            for i in stars[1:]:
+                ps[i] = ps[i].lstrip('*')
+            src, mode = rng.choice(['[{}]', '({},)' if k == 1 else '({})', '[{}]']).format(', '.join(ps)), 'pattern'
+        elif fam in ('pattern-class', '_pattern_attrlikes'):
+            ps = [rng.choice(_PATS).lstrip('*') for _ in range(k)]
+            cut = rng.randint(0, k)
+            body = ', '.join(ps[:cut] + [f'{n_}={p}' for n_, p in zip(nm[cut:], ps[cut:])])
+            src, mode = (f'cls.x({body})', 'pattern') if fam == 'pattern-class' else (body, '_pattern_attrlikes')
+        elif fam == 'pattern-map':
+            ps = [rng.choice(_PATS).lstrip('*') for _ in range(k)]
+            src, mode = '{' + ', '.join([f'{i}: {p}' for i, p in enumerate(ps)] + (['**rest'] if rng.random() < 0.3 else [])) \
+                + '}', 'pattern'
+        elif fam == '_type_params':
+            src, mode = ', '.join(rng.choice(['{0}', '{0}: int', '*{0}', '**{0}', '{0}: (a, b)']).format(n_.upper())
+                                  for n_ in nm), '_type_params'
+        elif fam == '_decorator_list':
+            src, mode = '\n'.join('@' + a.lstrip('*') for a in at), '_decorator_list'
+        elif fam == '_Assign_targets':
+            tg = [rng.choice(['a', 'b.c', 'd[0]', '(e, f)', '[g, *h]', '*i, j']) for _ in range(k)]
+            src, mode = ' '.join(t + ' =' for t in tg), '_Assign_targets'
+        elif fam == '_comprehension_ifs':
+            src, mode = ' '.join('if ' + a.lstrip('*') for a in at), '_comprehension_ifs'
+        else:  # keyword
+            src, mode = rng.choice(['{0}={1}', '**{1}']).format((nm or ['k'])[0], (at or ['v'])[0].lstrip('*')), 'keyword'
+        out.append((mode, src, 'random-' + fam))
+    return out
+
+
+LAYOUTS = ('base', 'spaces', 'tight', 'newline', 'comment', 'backslash', 'parens')
 
 _EXPR_MODES = {'expr', 'expr_slice', 'expr_arglike'}
 
@@ -159,6 +250,8 @@ def layout(src: str, mode: str, name: str) -> str | None:
         return None
     if name == 'spaces':
         return re.sub(r',\s*', ' ,  ', src).rstrip(' ') if not src.endswith(',') else None
+    if name == 'tight':
+        return re.sub(r',\s*', ',', src)
     if name == 'newline':
         return re.sub(r', ', ',\n  ', src)
     if name == 'comment':
